@@ -1305,12 +1305,16 @@ class Interp:
             items = container if isinstance(container, tuple) else container.items
             return self.any_eq(items, x)
         if isinstance(container, PyDict):
-            if not isinstance(x, SymVal) and not isinstance(x, CharStr):
+            keys = list(self.read_dict(container).keys())
+            if not self.is_symkey(x):
                 try:
-                    return x in container.d
+                    if x in self.read_dict(container):
+                        return True
                 except TypeError:
                     self.raise_builtin('TypeError', 'unhashable')
-            return self.any_eq(list(container.d.keys()), x)
+                keys = [k for k in keys if self.is_symkey(k)]      # only a symbolic key can still equal it
+            keys = [k for k in keys if isinstance(k, tuple) == isinstance(x, tuple)]
+            return self.any_eq(keys, x)
         if isinstance(container, PySet):
             if not isinstance(x, SymVal):
                 return x in container.s
@@ -1877,10 +1881,20 @@ class Interp:
                 return snap
         return d.d
 
+    @staticmethod
+    def is_symkey(key):
+        """a dictionary key whose equality with another key is a formula, not a fact: a symbolic scalar or a tuple
+        holding one"""
+        if isinstance(key, (SymVal, CharStr)):
+            return True
+        return isinstance(key, tuple) and any(Interp.is_symkey(x) for x in key)
+
     def dict_find(self, d, key):
         dd = self.read_dict(d)
-        if isinstance(key, (SymVal, CharStr)):
+        if self.is_symkey(key):
             for k in list(dd.keys()):
+                if isinstance(k, tuple) != isinstance(key, tuple):
+                    continue
                 r = self.equals(k, key)
                 if self.truth(r):
                     return k
@@ -1888,9 +1902,15 @@ class Interp:
         if isinstance(key, (PyList, PyDict, PySet)):
             self.raise_builtin('TypeError', 'unhashable type')
         try:
-            return key if key in dd else _MISSING
+            if key in dd:
+                return key
         except TypeError:
             self.raise_builtin('TypeError', 'unhashable type')
+        for k in list(dd.keys()):          # a concrete key may equal a symbolic key that is present
+            if self.is_symkey(k) and isinstance(k, tuple) == isinstance(key, tuple):
+                if self.truth(self.equals(k, key)):
+                    return k
+        return _MISSING
 
     def dict_get(self, d, key, default=None, raise_missing=False):
         k = self.dict_find(d, key)
@@ -1901,7 +1921,7 @@ class Interp:
         return self.read_dict(d)[k]
 
     def dict_set(self, d, key, value):
-        if isinstance(key, (SymVal, CharStr)):
+        if self.is_symkey(key):
             k = self.dict_find(d, key)
             if k is _MISSING:
                 # symbolic key distinct from all present keys: keep it as an identity-keyed entry
@@ -1913,7 +1933,7 @@ class Interp:
             self.raise_builtin('TypeError', 'unhashable type')
         # a concrete key may equal an existing symbolic key
         for k in list(d.d.keys()):
-            if isinstance(k, SymVal):
+            if self.is_symkey(k) and isinstance(k, tuple) == isinstance(key, tuple):
                 if self.truth(self.equals(k, key)):
                     d.d[k] = value
                     return
